@@ -355,6 +355,55 @@ gen_yescrypt (struct vh_setlist *L, int m, int thorough)
   vh_sl_add (L, m, 0, buf);
 }
 
+/* yescrypt's variable-length number encoding (1 character for the first 48 values above MIN, then 2, 3, ... characters),
+   written from the format description: returns the number of characters, 0 when the value cannot be encoded */
+static inline int
+vh_yenc (char *dst, uint32_t v, uint32_t min)
+{
+  uint32_t start = 0, end = 47, chars = 1, bits = 0;
+  int n = 0;
+  if (v < min)
+    return 0;
+  v -= min;
+  for (;;)
+    {
+      uint32_t count = (end + 1 - start) << bits;
+      if (v < count)
+        break;
+      if (start >= 63)
+        return 0;
+      start = end + 1;
+      end = start + (62 - end) / 2;
+      v -= count;
+      chars++;
+      bits += 6;
+    }
+  dst[n++] = A64[start + (v >> bits)];
+  while (--chars)
+    {
+      bits -= 6;
+      dst[n++] = A64[(v >> bits) & 0x3f];
+    }
+  dst[n] = 0;
+  return n;
+}
+
+/* "$y$" / "$gy$" setting with explicit N (log2), r, p, t: flavour j (RW); p and t are written only when not 1 / 0 */
+static inline void
+vh_ysetting (char *dst, size_t dl, const char *tag, int nlog2, uint32_t r, uint32_t pp, uint32_t t, const char *salt)
+{
+  char rb[8], pb[8] = "", tb[8] = "", mb[8] = "";
+  uint32_t have = (pp != 1 ? 1u : 0u) | (t != 0 ? 2u : 0u);
+  vh_yenc (rb, r, 1);
+  if (have)
+    vh_yenc (mb, have, 1);
+  if (pp != 1)
+    vh_yenc (pb, pp, 2);
+  if (t != 0)
+    vh_yenc (tb, t, 1);
+  snprintf (dst, dl, "%sj%c%s%s%s%s$%s", tag, A64[nlog2 - 1], rb, mb, pb, tb, salt);
+}
+
 /* scrypt: "$7$" N(1) r(5) p(5) salt ["$" hash] */
 static void
 gen_scrypt (struct vh_setlist *L, int thorough)
